@@ -22,7 +22,7 @@ EXPLANATION = (
     "converted with breaks suppressed (Code mode after a hash). convert_math_delimited: whitespace at the inner edges of the delimiters "
     "maps to blank / hard line break exactly, the body is nested by tab_spaces between the converted delimiters. Math call arguments "
     "(exempt by the property), attachments/fractions/roots (exempt) and equation delimiters through the list stylist are outside; so is "
-    "what the renderer does with the atoms.")
+    "what the renderer does with the atoms. Session 3: whole documents with equations through the real printer, the interpreted renderer and the REAL parser: blanks between math siblings, the display flag of every equation and the nesting of math nodes are those of the source.")
 
 CATS = ['expr', 'space', 'hash', 'tok']
 
